@@ -511,6 +511,17 @@ pub struct ParserCfg {
     pub default_parser: bool,
 }
 
+/// one step of a parser SESSION: one parser object lives through all steps (C04/C05/C06 histories)
+#[derive(Clone, Debug, Serialize, Deserialize, PartialEq)]
+pub enum PStep {
+    SetFooter(String),
+    SetAssertion(String),
+    /// parse `token` under key number `key` of the session's key list
+    Parse { token: String, key: usize },
+    /// let wall-clock time pass while the parser object stays alive
+    SleepMs(u64),
+}
+
 thread_local! {
     /// call log of harness validators: (key, value seen)
     pub static VLOG: RefCell<Vec<(String, Value)>> = const { RefCell::new(Vec::new()) };
@@ -722,6 +733,8 @@ pub trait Proto {
     /// one parser, several tokens in sequence
     fn generic_open_seq(key: &KeyMat, tokens: &[&str], cfg: &ParserCfg) -> Vec<(Out<Value>, Vec<(String, Value)>)>;
     fn batteries_run(key: &KeyMat, ops: &[BOp]) -> Vec<Out<String>>;
+    /// one parser object (generic or batteries layer) driven through `steps`; returns one outcome per Parse step
+    fn session(batteries: bool, keys: &[KeyMat], cfg: &ParserCfg, steps: &[PStep]) -> Vec<Out<Value>>;
     fn batteries_open(key: &KeyMat, token: &str, cfg: &ParserCfg) -> (Out<Value>, Vec<&'static str>);
     fn batteries_open_seq(key: &KeyMat, tokens: &[&str], cfg: &ParserCfg) -> Vec<(Out<Value>, Vec<(String, Value)>)>;
 }
@@ -948,6 +961,59 @@ macro_rules! impl_proto {
                 }
                 outs
             }
+            #[allow(unused_variables)]
+            fn session(batteries: bool, keys: &[KeyMat], cfg: &ParserCfg, steps: &[PStep]) -> Vec<Out<Value>> {
+                vtable_set(&cfg.validators);
+                let r = (|| -> Result<Vec<Out<Value>>, HErr<GenericParserError>> {
+                    keys_vec!($kind, $V, keys, |ks| {
+                        let mut res = Vec::new();
+                        if batteries {
+                            let mut p = if cfg.default_parser { PasetoParser::<$V, $Pu>::default() } else { PasetoParser::<$V, $Pu>::new() };
+                            Self::configure_batteries(&mut p, cfg).map_err(HErr::ClaimCtor)?;
+                            for st in steps {
+                                match st {
+                                    PStep::SetFooter(f) => {
+                                        p.set_footer(Footer::from(f.as_str()));
+                                    }
+                                    PStep::SetAssertion(a) => {
+                                        ia_builder!($assert, p, Some(a.as_str()));
+                                    }
+                                    PStep::SleepMs(ms) => std::thread::sleep(std::time::Duration::from_millis(*ms)),
+                                    PStep::Parse { token, key } => {
+                                        let k = &ks[*key % ks.len()];
+                                        let (o, _) = guard(|| -> Result<Value, HErr<GenericParserError>> { p.parse(token, k).map_err(HErr::Lib) }, fmt_h(parser_err));
+                                        res.push(o);
+                                    }
+                                }
+                            }
+                        } else {
+                            let mut p = GenericParser::<$V, $Pu>::default();
+                            Self::configure_generic(&mut p, cfg).map_err(HErr::ClaimCtor)?;
+                            for st in steps {
+                                match st {
+                                    PStep::SetFooter(f) => {
+                                        p.set_footer(Footer::from(f.as_str()));
+                                    }
+                                    PStep::SetAssertion(a) => {
+                                        ia_builder!($assert, p, Some(a.as_str()));
+                                    }
+                                    PStep::SleepMs(ms) => std::thread::sleep(std::time::Duration::from_millis(*ms)),
+                                    PStep::Parse { token, key } => {
+                                        let k = &ks[*key % ks.len()];
+                                        let (o, _) = guard(|| -> Result<Value, HErr<GenericParserError>> { p.parse(token, k).map_err(HErr::Lib) }, fmt_h(parser_err));
+                                        res.push(o);
+                                    }
+                                }
+                            }
+                        }
+                        Ok(res)
+                    })
+                })();
+                match r {
+                    Ok(v) => v,
+                    Err(e) => vec![Out::Err(fmt_h(parser_err)(&e))],
+                }
+            }
             fn batteries_open(key: &KeyMat, token: &str, cfg: &ParserCfg) -> (Out<Value>, Vec<&'static str>) {
                 vtable_set(&cfg.validators);
                 guard(
@@ -1065,6 +1131,31 @@ macro_rules! open_keys {
     }};
 }
 
+/// all keys of a session, constructed BEFORE the parser (the parser's lifetime parameter covers its keys)
+macro_rules! keys_vec {
+    (local, $V:ident, $keys:expr, |$ks:ident| $body:expr) => {{
+        let $ks: Vec<PasetoSymmetricKey<$V, Local>> = $keys.iter().map(|k| PasetoSymmetricKey::<$V, Local>::from(Key::<32>::from(k.sym))).collect();
+        $body
+    }};
+    (ed, $V:ident, $keys:expr, |$ks:ident| $body:expr) => {{
+        let kbs: Vec<Key<32>> = $keys.iter().map(|k| Key::<32>::from(k.pk.as_slice())).collect();
+        let $ks: Vec<PasetoAsymmetricPublicKey<$V, Public>> = kbs.iter().map(PasetoAsymmetricPublicKey::<$V, Public>::from).collect();
+        $body
+    }};
+    (p384, $V:ident, $keys:expr, |$ks:ident| $body:expr) => {{
+        let kbs: Vec<Key<49>> = $keys.iter().map(|k| Key::<49>::from(k.pk.as_slice())).collect();
+        let mut $ks: Vec<PasetoAsymmetricPublicKey<$V, Public>> = Vec::new();
+        for kb in kbs.iter() {
+            $ks.push(PasetoAsymmetricPublicKey::<$V, Public>::try_from(kb).map_err(HErr::KeyCtor)?);
+        }
+        $body
+    }};
+    (rsa, $V:ident, $keys:expr, |$ks:ident| $body:expr) => {{
+        let $ks: Vec<PasetoAsymmetricPublicKey<$V, Public>> = $keys.iter().map(|k| PasetoAsymmetricPublicKey::<$V, Public>::from(k.pk.as_slice())).collect();
+        $body
+    }};
+}
+
 macro_rules! open_keys_h {
     (p384, $V:ident, $key:expr, |$k:ident| $body:expr) => {{
         let kb = Key::<49>::from($key.pk.as_slice());
@@ -1170,4 +1261,8 @@ pub fn open_at(layer: Layer, p: P, key: &KeyMat, token: &str, footer: Option<&st
             (o, t)
         }
     }
+}
+
+pub fn session(p: P, batteries: bool, keys: &[KeyMat], cfg: &ParserCfg, steps: &[PStep]) -> Vec<Out<Value>> {
+    dispatch!(p, T => T::session(batteries, keys, cfg, steps))
 }
